@@ -6,7 +6,9 @@ pub struct SequenceEqual<'a, Item>
 where
   Item: Clone + Send + Sync,
 {
-  zip_op: operators::Zip<'a, Item>,
+  // the sequences are compared notification by notification, terminals
+  // included, so that sequences of different length are not equal
+  zip_op: operators::Zip<'a, Material<Item>>,
 }
 
 impl<'a, Item> SequenceEqual<'a, Item>
@@ -14,7 +16,16 @@ where
   Item: Clone + Send + Sync + PartialEq,
 {
   pub fn new(observables: &[Observable<'a, Item>]) -> SequenceEqual<'a, Item> {
-    SequenceEqual { zip_op: operators::Zip::new(observables) }
+    let observables = Vec::from_iter(observables.iter().map(Self::mark_end));
+    SequenceEqual {
+      zip_op: operators::Zip::new(&observables),
+    }
+  }
+  // items, followed by an end marker when the source completes (an error of
+  // the source stays an error and is forwarded at once)
+  fn mark_end(o: &Observable<'a, Item>) -> Observable<'a, Material<Item>> {
+    o.map(|x| Material::Next(x))
+      .concat(&[observables::just(Material::Complete)])
   }
   pub fn execute(&self, source: Observable<'a, Item>) -> Observable<'a, bool> {
     let zip_op = self.zip_op.clone();
@@ -28,23 +39,41 @@ where
       let sctl_error = sctl.clone();
       let sctl_complete = sctl.clone();
 
-      zip_op.execute(source).inner_subscribe(sctl.new_observer(
-        move |serial, x: Vec<Item>| {
-          let check = x.get(0).unwrap();
-          if !x.iter().all(|i| i == check) {
-            sctl_next.upstream_abort_observe(&serial);
-            sctl_next.sink_next(false);
-            sctl_next.sink_complete(&serial);
-          }
-        },
-        move |_, e| {
-          sctl_error.sink_error(e);
-        },
-        move |serial| {
-          sctl_complete.sink_next(true);
-          sctl_complete.sink_complete(&serial);
-        },
-      ));
+      zip_op
+        .execute(Self::mark_end(&source))
+        .inner_subscribe(sctl.new_observer(
+          move |serial, x: Vec<Material<Item>>| {
+            let completed =
+              x.iter().filter(|m| matches!(m, Material::Complete)).count();
+            let verdict = if completed == x.len() {
+              Some(true) // all ended together, nothing differed so far
+            } else if completed > 0 {
+              Some(false) // different lengths
+            } else {
+              let mut items = x.iter().filter_map(|m| match m {
+                Material::Next(v) => Some(v),
+                _ => None,
+              });
+              let check = items.next().unwrap();
+              if items.all(|i| i == check) {
+                None
+              } else {
+                Some(false)
+              }
+            };
+            if let Some(verdict) = verdict {
+              sctl_next.upstream_abort_observe(&serial);
+              sctl_next.sink_next(verdict);
+              sctl_next.sink_complete(&serial);
+            }
+          },
+          move |_, e| {
+            sctl_error.sink_error(e);
+          },
+          move |serial| {
+            sctl_complete.sink_complete(&serial);
+          },
+        ));
     })
   }
 }
